@@ -3,7 +3,7 @@
 P="$1"; shift
 cd /verif || exit 2
 git -C /repo diff --quiet || { echo "/repo not clean"; exit 2; }
-git -C /repo apply "$P" || { echo "patch does not apply"; exit 2; }
+git -C /repo apply "$P" 2>/dev/null || (cd /repo && patch -p1 -F3 -s --no-backup-if-mismatch < "$P") || { echo "patch does not apply"; git -C /repo checkout -- .; exit 2; }
 for id in "$@"; do
   T0=$(date +%s)
   ./check "$id" > "/tmp/mut_$id.log" 2>&1; rc=$?
